@@ -437,6 +437,23 @@ def _wide_cases():
                 yield {"shape": shape, "names": names, "sep": "/", "pathattr": pathattr, "ignorecase": ic, "roundtrip": False, "flip": 0, "paths": paths, "mutations": mutations}
 
 
+def _dotsep_cases():
+    """A class whose separator is '.': the texts '.', '..', '...' are then absolute paths with empty components (no root
+    name -> ResolverError), not navigation; everything is judged by the reference interpreter."""
+    import itertools
+
+    for shape in ([[], []], [[[]], []], [[[], []]]):
+        size = shapes.shape_size(forest.to_tuple(shape))
+        names = ["top", "a", "b", "c"][:size]
+        comps = ["", "top", "a", "b", "zz"]
+        paths = []
+        for start in range(size):
+            paths += [[start, t] for t in (".", "..", "...", "....", "a", "a.b", ".top", ".top.a", ".top..a", "..a", "a..", ".top.", "top", ".a")]
+            paths += [[start, ".".join(p)] for p in itertools.product(comps, repeat=3)]
+        for ic in (False, True):
+            yield {"shape": shape, "names": names, "sep": ".", "pathattr": "name", "ignorecase": ic, "roundtrip": False, "flip": 0, "paths": paths}
+
+
 def _sepname_cases():
     import itertools
 
@@ -468,7 +485,7 @@ def plan(tier, seed):
     tasks = [{"engine": "enum", "max_nodes": max_nodes, "index": i, "count": nshards} for i in range(nshards)]
     tasks += [{"engine": "hyp", "examples": examples, "seed": seed * 1000 + i} for i in range(nshards)]
     tasks += [{"engine": "long", "sep": sep, "ignorecase": ic} for sep, ic in (("/", False), ("::", True))]
-    tasks += [{"engine": "mixed"}, {"engine": "sepnames"}, {"engine": "wide"}]
+    tasks += [{"engine": "mixed"}, {"engine": "sepnames"}, {"engine": "wide"}, {"engine": "dotsep"}]
     if tier == "thorough":
         # coverage-guided supplement: 16 libFuzzer campaigns on the same strategy + oracle (skipped if atheris is unavailable)
         tasks += [{"engine": "fuzz", "runs": 4000, "seed": seed * 100 + i + 1} for i in range(nshards)]
@@ -497,6 +514,8 @@ def run_task(task, acc):
         return
     if task["engine"] == "wide":
         return acc.run_enum(check_case, _wide_cases())
+    if task["engine"] == "dotsep":
+        return acc.run_enum(check_case, _dotsep_cases())
     if task["engine"] == "sepnames":
         return acc.run_enum(check_case, _sepname_cases())
     if task["engine"] == "enum":
